@@ -12,6 +12,7 @@ def handleLine (payload : String) : String :=
     match r.header with
     | none => s!"{r.status} none"
     | some h => s!"{r.status} {hexOfBytes h}"
+  let payload := if payload.startsWith "srv " then (payload.drop 4).toString else payload
   if payload = "none" then render (handle none) else
   match bytesOfHex payload with
   | none => "bad-input"
